@@ -36,5 +36,5 @@ corpus, run, shrink, replay = make(
     [(lambda ctx, rng: solvers.plain_case(ctx, rng, 5, 5), 0.4),
      (lambda ctx, rng: solvers.ordered_case(ctx, rng, 4, 4, 3), 0.25),
      (lambda ctx, rng: solvers.unordered_case(ctx, rng, 5, 4, 4), 0.35)],
-    _judge, quick=250, thorough=4000, corpus_cases=CORPUS, known_algos=["thl", "ext_spfs", "superdtl"],
+    _judge, quick=800, thorough=6000, corpus_cases=CORPUS, known_algos=["thl", "ext_spfs", "superdtl"],
 )
